@@ -11,6 +11,7 @@
      commands/repair/snapshots.rs  RepairState (Visitor)          -> rp_visit, repair_tree
      commands/copy.rs        copy                                  -> reach, needed, copy_sends  *)
 From Verif.Base Require Import Tactics.
+From Verif.C12 Require Import Extracted.
 Local Open Scope N_scope.
 
 Inductive kind := KFile | KDir | KDirNoSub | KSymlink | KOther.
@@ -435,10 +436,19 @@ Section Copy.
   Definition has (ix : list (bt * N)) (b : bt * N) : bool :=
     existsb (fun e => bt_eqb (fst e) (fst b) && (snd e =? snd b)) ix.
 
-  (* copy.rs: ids not in the destination's TYPED index, and known to the source index
+  (* copy.rs "finding needed blobs": the root tree ids of the snapshots, plus whatever the tree walk
+     (`TreeStreamerOnce`) sees below the trees it is started from.  The code must start it from ALL
+     snapshot root trees — the destination may hold a root tree without everything below it; where the
+     walk starts is read from the source (Extracted.copy_walk_from_all_snapshot_trees). *)
+  Definition walked (dst : list (bt * N)) (snaps : list tree) : list tree :=
+    if copy_walk_from_all_snapshot_trees then snaps
+    else filter (fun t => negb (has dst (Tree, tid t))) snaps.
+  Definition seen (dst : list (bt * N)) (snaps : list tree) : list (bt * N) :=
+    map (fun t => (Tree, tid t)) snaps ++ flat_map (flat_map reach_node) (walked dst snaps).
+  (* of those: ids not in the destination's TYPED index, and known to the source index
      (filter_map on index.get_data / get_tree) *)
   Definition needed (src dst : list (bt * N)) (snaps : list tree) : list (bt * N) :=
-    filter (fun b => negb (has dst b) && has src b) (flat_map reach snaps).
+    filter (fun b => negb (has dst b) && has src b) (seen dst snaps).
   (* data blobs first, then tree blobs *)
   Definition copy_order (l : list (bt * N)) : list (bt * N) :=
     filter (fun b => bt_eqb (fst b) Data) l ++ filter (fun b => bt_eqb (fst b) Tree) l.
